@@ -119,6 +119,7 @@ def r1_candidate_order(ctx):
             and not (isinstance(n.ast.value, ast.Constant) and n.ast.value.value is None)]
     rep.floor('C17.R1', 'candidate returns of check_dpath', len(rets), 2)
     pkg_rets, file_rets = [], []
+    chain_not_walked = []
     for rn in rets:
         facts = graph.guard_facts(dom, rn)
         v = rn.ast.value
@@ -126,12 +127,16 @@ def r1_candidate_order(ctx):
         def is_chain_test(e):
             if not (isinstance(e, ast.Call) and e.args and is_name(e.args[0], vname)):
                 return False
-            if _callee(e) == '_isvalid':
-                return True
             r = ctx.res.resolve_call(f, e)
+            if _callee(e) == '_isvalid' and not (r[0] == 'repo' and len(r[1]) == 1):
+                return True
             if r[0] == 'repo' and len(r[1]) == 1:
                 body = ast.unparse(r[1][0].node)
-                return '__init__.py' in body and 'dirname' in body and any(isinstance(x, (ast.While, ast.For)) for x in ast.walk(r[1][0].node))
+                loops = [x for x in ast.walk(r[1][0].node) if isinstance(x, (ast.While, ast.For))]
+                climbs = any(isinstance(y, ast.Assign) and isinstance(y.value, ast.Call) and _callee(y.value) == 'dirname' for lp in loops for y in ast.walk(lp))
+                if '__init__.py' in body and 'dirname' in body and not (loops and climbs):
+                    chain_not_walked.append(r[1][0])
+                return '__init__.py' in body and 'dirname' in body and bool(loops) and climbs
             return False
         valid = any(fa.polarity is True and is_chain_test(fa.expr) for fa in facts)
         in_loop = any(fa.polarity == 'iter' for fa in facts)
@@ -148,6 +153,10 @@ def r1_candidate_order(ctx):
             why = 'a directory is returned only when it holds an __init__.py and every directory above it is a package'
             bad = 'a directory candidate is returned without %s' % ('the package-chain test' if isfile_init else 'testing for its __init__.py')
         rep.ob('C17.R1', ctx.loc(f, rn.ast), ctx.src(rn.ast), ok, why if ok else bad + ' (guards: %s)' % fmt_facts(facts), anchor=CHK)
+    for h in chain_not_walked[:1]:
+        rep.ob('C17.R1', ctx.loc(h, h.node), '%s walks every directory up to the search directory' % h.name, False,
+               'the package-chain test looks at the parent directory only (no loop that climbs with dirname): `top.mid.leaf` resolves although `top/` has no __init__.py, '
+               'where the interpreter finds nothing', anchor=h.qualname)
     rep.ob('C17.R1', ctx.loc(f, f.node), 'package and file candidates both present', bool(pkg_rets) and bool(file_rets),
            '%d package return(s), %d file return(s)' % (len(pkg_rets), len(file_rets)), nontrivial=False, anchor=CHK)
     # precedence: no file return can be reached before the package test failed; the package return is not reachable from the file loop
@@ -720,6 +729,7 @@ from ..selftest import fire, silent      # noqa: E402
 
 UP = 'xdoctest/utils/util_import.py'
 VARIANTS = [
+    fire('package-chain-checked-one-level-only', 'C17.R1', (UP, "        while subdir and subdir != base:\n", "        if subdir and subdir != base:\n")),
     fire('plain-directory-shadows-module-file', 'C17.R1b', (UP, "            if isfile(join(modpath, '__init__.py')):\n                if _isvalid(modpath, dpath):\n                    return modpath\n", "            if not isfile(join(modpath, '__init__.py')):\n                return None\n            if _isvalid(modpath, dpath):\n                return modpath\n")),
     fire('split-follows-symlinks', 'C17.R9', (UP, "    modpath_ = abspath(expanduser(modpath))\n    if check:", "    modpath_ = realpath(expanduser(modpath))\n    if check:")),
     fire('file-before-package', 'C17.R1', (UP, """        modpath = join(dpath, _fname_we)
